@@ -239,7 +239,7 @@ def _get_phases_from_header(header: List[str]) -> dict:
         "-3m",
         "6/m",
         "6/mmm",
-        "m3",
+        "m-3",
         "m-3m",
     ]
 
